@@ -6,6 +6,21 @@ import os
 HERE = os.path.dirname(os.path.dirname(os.path.abspath(__file__)))
 
 CLAIMED = {
+    "C14": dict(
+        category="model_checking",
+        text="Kani harnesses over the real Transformable impls for f32, Interval and Grad (the code that applies the transform matrix in every "
+             "Shape evaluator): matrix entries, positions, boxes and derivative seeds are symbolic on a lattice where real arithmetic is exact in f32 "
+             "(k/4, homogeneous coordinate a power of two), so the assertions are exact and independent of operation order: the point result is "
+             "(M p)/w, the box result contains the image of every point of the box, the gradient lanes are the quotient-rule derivative for "
+             "arbitrary seeds. Quick: one symbolic upper row + symbolic w (A_0..A_2) and a fully symbolic projective bottom row (B); thorough adds the "
+             "point harness with all 16 entries symbolic.",
+        design="DESIGN.md §2 C14",
+        note="Trusted: Kani/CBMC. Outside: binding of variables by identity (ShapeVars/VarMap hash maps and Vec scratch buffers are not tractable "
+             "under CBMC here), values off the lattice, all 16 entries symbolic at once for Interval/Grad (>10 min, harnesses kept as c14_x_*), "
+             "survival through simplification (the variable map is checked by the C04 unit).",
+        technique="bounded model checking of the compiled Transformable kernels (Kani) on an exact-arithmetic lattice",
+        engine="E-K",
+    ),
     "C16": dict(
         category="translation_validation",
         text="Every shape, transform and CSG combinator of fidget-shapes is built through its public struct and Tree::from with fixed dyadic "
@@ -27,9 +42,10 @@ CLAIMED = {
              "every trace of every enumerated parent (incl. wide parents that spill at a budget of 3); z3 validates each child against "
              "its parent for all inputs compatible with the trace, plus slot/register bounds of the reused tapes.",
         design="DESIGN.md §2 C10",
-        note="Trusted: z3; same encoding as C04. Outside: reuse of evaluator objects across tapes (needs the interpreter loop, which CBMC "
-             "does not execute in reach), MmapWriter growth, JIT drivers, RenderHandle::recycle.",
-        technique="SMT translation validation of simplify run natively with reused workspace/storage histories",
+        note="Trusted: z3; same encoding as C04. Also: the verbatim body of TracingVmEval::resize_slots under Kani from an arbitrary earlier "
+             "evaluator state (every trace entry Unknown, buffers sized to the tape). Outside: bulk evaluator buffers, JIT evaluator objects and "
+             "drivers, Shape wrappers, MmapWriter growth, RenderHandle::recycle.",
+        technique="SMT translation validation of simplify run natively with reused workspace/storage histories; bounded model checking (Kani) of the evaluator reset",
         engine="E-TV",
     ),
     "C12": dict(
@@ -177,7 +193,6 @@ NOT_APPLICABLE = {
     "C17": "Scripts: the unit is the Rhai interpreter (string parser + dynamic dispatch), far beyond bounded symbolic execution here.",
     "C19": "Constraint solver: HashMap<Var,_> API, dynamic nalgebra matrices and an SVD-based LM loop; hash-map and nalgebra code alone cost minutes per call under CBMC and the claims are numeric.",
     # not yet built (kept current as checks are added)
-    "C14": "not built: ShapeTracingEval/ShapeBulkEval go through nalgebra transforms and HashMap-keyed variable binding, which CBMC does not get through within minutes per call (same cost wall as the C18 matrix harnesses)",
 }
 
 HOOK_COMMITS = ["6f64d81", "a9b3eaa"]
@@ -214,7 +229,7 @@ def main():
              "kind_free_text": "tvdump assembles tapes with the real fidget-jit assemblers; lib/lifter.py + lib/x86smt.py + lib/jitsmt.py execute the machine code symbolically into SMT for z3"},
             {"name": "E-TV", "path": "/verif/tv", "serves_properties": ["C01", "C04", "C10", "C12", "C13", "C15", "C16"],
              "kind_free_text": "tvdump (Rust, path dependency on /repo) runs the real compiler passes natively on enumerated programs; lib/tv_engine.py encodes each input/output pair for z3"},
-            {"name": "E-K", "path": "/verif/kani", "serves_properties": ["C01", "C03", "C04", "C05", "C11", "C18", "C20"],
+            {"name": "E-K", "path": "/verif/kani", "serves_properties": ["C01", "C03", "C04", "C05", "C10", "C11", "C14", "C18", "C20"],
              "kind_free_text": "Kani 0.68 / CBMC 6.11 proof harnesses over the real fidget crates (path dependency on /repo), driven by /verif/check"},
         ],
         "checks": checks,
